@@ -1,6 +1,6 @@
 """C10 - persistent store: acked writes survive crashes; memory never diverges."""
 import json, os, re, copy
-import vlib
+import vlib, inmemlib
 
 
 def run(ctx):
@@ -17,7 +17,10 @@ def run(ctx):
     json.dump(behs, open(inp, "w"))
     binary = vlib.go_build_test(ctx, "c10")
     out = os.path.join(ctx.scratch, "persist.ndjson")
-    vlib.go_run(ctx, binary, "TestPersist", {"VERIF_IN": inp, "VERIF_OUT": out}, timeout=3000)
+    henv, hdir = inmemlib.traced(ctx, "persist")
+    vlib.go_run(ctx, binary, "TestPersist", dict({"VERIF_IN": inp, "VERIF_OUT": out}, **henv), timeout=3000)
+    # the same executions from inside the collection: a rejected backing-store write must leave no trace in memory or in the ring
+    inmemlib.judge_driver(ctx, "C10", hdir, "TestPersist", max_collections=500 if quick else 5000)
     recs = vlib.read_ndjson(out)
     traces = vlib.split_traces(recs)
     mism, consumed, r = vlib.validate(ctx, "TracePersist", "TracePersist.cfg", out, timeout=3000)
